@@ -100,12 +100,79 @@ pub fn outcome(pattern: &Pattern<SupportLang>, cand: &N, p: &proj::Projection) -
 /// anything else keeps all its children (nodes the parser invented - MISSING - aside).  None when the text does not
 /// parse to such a node.
 pub fn reference_table(lang: SupportLang, pattern_text: &str, kind_id: u16) -> Option<Vec<Value>> {
+  reference_table_sel(lang, pattern_text, kind_id, None)
+}
+
+fn spelling(t: &str, ex: char) -> Option<Value> {
+  let sig = t.chars().take_while(|c| *c == ex).count();
+  let name: String = t.chars().skip(sig).collect();
+  let ok_name = |n: &str| n.chars().next().map(|c| c.is_ascii_uppercase() || c == '_').unwrap_or(false)
+    && n.chars().all(|c| c.is_ascii_uppercase() || c.is_ascii_digit() || c == '_');
+  match sig {
+    1 | 2 if ok_name(&name) => Some(if name.starts_with('_') { json!({"ty": "dropped", "name": "", "named": sig == 1}) }
+                                    else { json!({"ty": "capture", "name": name, "named": sig == 1}) }),
+    3 if name.is_empty() || name.starts_with('_') && ok_name(&name) => Some(json!({"ty": "multiple", "name": "", "named": false})),
+    3 if ok_name(&name) => Some(json!({"ty": "multicap", "name": name, "named": false})),
+    _ => None,
+  }
+}
+
+fn tabulate(n: &N, ex: char, out: &mut Vec<Value>) -> usize {
+  let id = out.len() + 1;
+  let none = json!({"ty": "none", "name": "", "named": false});
+  let t = n.text();
+  if let Some(mv) = spelling(&t, ex) {
+    out.push(json!({"ty": "M", "kid": 0, "nm": false, "t": "", "mv": mv, "ch": []}));
+  } else if n.get_ts_node().child_count() == 0 {
+    out.push(json!({"ty": "T", "kid": n.kind_id(), "nm": n.is_named(), "t": t, "mv": none, "ch": []}));
+  } else {
+    out.push(json!({"ty": "I", "kid": n.kind_id(), "nm": true, "t": "", "mv": none, "ch": []}));
+    let mut ch = vec![];
+    for c in n.children() {
+      if !c.get_ts_node().is_missing() {
+        ch.push(tabulate(&c, ex, out));
+      }
+    }
+    out[id - 1]["ch"] = json!(ch);
+  }
+  id
+}
+
+/// `selector_at` = Some(byte offset): the text is a CONTEXT and the pattern is the node selected in it by kind -
+/// the reference semantics of `selector` is "the first node of that kind in document order, the outermost of nodes
+/// starting together" (a plain pre-order walk over the raw tree-sitter tree, written here without Node::find / dfs);
+/// the table is produced only when that node starts at the given offset (the place the pattern was cut at).
+pub fn reference_table_sel(lang: SupportLang, pattern_text: &str, kind_id: u16, selector_at: Option<usize>) -> Option<Vec<Value>> {
   use ast_grep_core::Language;
   let ex = lang.expando_char();
   let text: String = pattern_text.chars().map(|c| if c == '$' { ex } else { c }).collect();
   let g = lang.ast_grep(&text);
-  // the pattern is the single node the text parses to: from the root down while a node has exactly one child
   let mut root = g.root();
+  if let Some(at) = selector_at {
+    // `$` and the expando character have the same width in every built-in language (both ASCII), offsets carry over
+    fn first_of_kind<'a>(n: N<'a>, kind_id: u16) -> Option<N<'a>> {
+      if n.kind_id() == kind_id {
+        return Some(n);
+      }
+      let cnt = n.get_ts_node().child_count();
+      for i in 0..cnt {
+        if let Some(c) = n.child(i as usize) {
+          if let Some(f) = first_of_kind(c, kind_id) {
+            return Some(f);
+          }
+        }
+      }
+      None
+    }
+    let sel = first_of_kind(root, kind_id)?;
+    if sel.range().start != at {
+      return None;
+    }
+    let mut out = vec![];
+    tabulate(&sel, ex, &mut out);
+    return Some(out);
+  }
+  // the pattern is the single node the text parses to: from the root down while a node has exactly one child
   loop {
     let t = root.get_ts_node();
     if t.child_count() != 1 || spelling(&root.text(), ex).is_some() {
@@ -116,41 +183,8 @@ pub fn reference_table(lang: SupportLang, pattern_text: &str, kind_id: u16) -> O
   if root.kind_id() != kind_id {
     return None;
   }
-  fn spelling(t: &str, ex: char) -> Option<Value> {
-    let sig = t.chars().take_while(|c| *c == ex).count();
-    let name: String = t.chars().skip(sig).collect();
-    let ok_name = |n: &str| n.chars().next().map(|c| c.is_ascii_uppercase() || c == '_').unwrap_or(false)
-      && n.chars().all(|c| c.is_ascii_uppercase() || c.is_ascii_digit() || c == '_');
-    match sig {
-      1 | 2 if ok_name(&name) => Some(if name.starts_with('_') { json!({"ty": "dropped", "name": "", "named": sig == 1}) }
-                                      else { json!({"ty": "capture", "name": name, "named": sig == 1}) }),
-      3 if name.is_empty() || name.starts_with('_') && ok_name(&name) => Some(json!({"ty": "multiple", "name": "", "named": false})),
-      3 if ok_name(&name) => Some(json!({"ty": "multicap", "name": name, "named": false})),
-      _ => None,
-    }
-  }
-  fn rec(n: &N, ex: char, out: &mut Vec<Value>) -> usize {
-    let id = out.len() + 1;
-    let none = json!({"ty": "none", "name": "", "named": false});
-    let t = n.text();
-    if let Some(mv) = spelling(&t, ex) {
-      out.push(json!({"ty": "M", "kid": 0, "nm": false, "t": "", "mv": mv, "ch": []}));
-    } else if n.get_ts_node().child_count() == 0 {
-      out.push(json!({"ty": "T", "kid": n.kind_id(), "nm": n.is_named(), "t": t, "mv": none, "ch": []}));
-    } else {
-      out.push(json!({"ty": "I", "kid": n.kind_id(), "nm": true, "t": "", "mv": none, "ch": []}));
-      let mut ch = vec![];
-      for c in n.children() {
-        if !c.get_ts_node().is_missing() {
-          ch.push(rec(&c, ex, out));
-        }
-      }
-      out[id - 1]["ch"] = json!(ch);
-    }
-    id
-  }
   let mut out = vec![];
-  rec(&root, ex, &mut out);
+  tabulate(&root, ex, &mut out);
   Some(out)
 }
 
@@ -162,10 +196,30 @@ pub fn match_record(
   cand: &N,
   extra: Value,
 ) -> Option<Value> {
+  match_record_sel(id, lang, pattern_text, None, cand, extra)
+}
+
+/// `selector` = Some((kind name, byte offset of the cut site in the context)): `pattern_text` is a context and the
+/// pattern under test is Pattern::contextual(context, kind)
+pub fn match_record_sel(
+  id: &str,
+  lang: SupportLang,
+  pattern_text: &str,
+  selector: Option<(&str, usize)>,
+  cand: &N,
+  extra: Value,
+) -> Option<Value> {
   let is_cut = extra["mode"] == "cut";
-  let rt = if is_cut { reference_table(lang, pattern_text, cand.kind_id()) } else { None };
+  let rt = if is_cut { reference_table_sel(lang, pattern_text, cand.kind_id(), selector.map(|s| s.1)) } else { None };
+  if selector.is_some() && rt.is_none() {
+    return None; // the selector does not denote the cut site in this context: not a case of the property
+  }
   let p = proj::project(cand, true);
-  let base = match catch_unwind(AssertUnwindSafe(|| Pattern::try_new(pattern_text, lang))) {
+  let built = catch_unwind(AssertUnwindSafe(|| match selector {
+    None => Pattern::try_new(pattern_text, lang),
+    Some((kind, _)) => Pattern::contextual(pattern_text, kind, lang),
+  }));
+  let base = match built {
     Ok(Ok(b)) => b,
     _ => {
       // the pattern was refused: for a pattern cut from this very node that is an outcome, not a reason to skip it
